@@ -199,7 +199,15 @@ func (c *FnCtx) execRegion(fr *Frame, blocks map[*ssa.BasicBlock]bool, start *ss
 		S, r := c.merge(in)
 		S = S.clone()
 		bc := &blockCtx{fr: fr, st: S, reach: r}
-		if c.blockCanaries && c.dry == 0 && fr == c.top && len(b.Preds) > 0 {
+		inLoop := false
+		for _, li := range fr.loops {
+			if li.blocks[b] && li.header != b {
+				inLoop = true
+			}
+		}
+		// thorough tier: every block; quick tier: the blocks of loop bodies (a contradiction inside a
+		// loop body is invisible to the per-return canaries, because the loop is cut at its head)
+		if _, isPanic := b.Instrs[len(b.Instrs)-1].(*ssa.Panic); (c.blockCanaries || inLoop) && c.dry == 0 && fr == c.top && len(b.Preds) > 0 && !isPanic {
 			// cover check: the block must be reachable under the contracts in force
 			o := c.oblige("canary", fmt.Sprintf("block%d", b.Index), r, "false", c.eng.posOf(firstPos(b)), "vacuity canary: basic block reachable", nil)
 			o.Canary = true
